@@ -398,7 +398,8 @@ pub fn run(a: &Args) -> Report {
         // run after each union. This is the shape in which an in-place rebuilt container collides
         // with an equal container of larger or smaller id and a later union must find it again.
         let mut script: std::collections::VecDeque<Op> = Default::default();
-        if big || rng.chance(1, 2) {
+        let hostile_only = a.get("hostile-only") == Some("1");
+        if big || hostile_only || rng.chance(1, 2) {
             let base = if big { 0 } else { 0 };
             let mut ls: Vec<usize> = (base..base + (3 + rng.below(2)).min(nleaf)).collect();
             rng.shuffle(&mut ls);
@@ -455,7 +456,7 @@ pub fn run(a: &Args) -> Report {
             script.push_back(Op::Run);
             rep.count("hostile_blocks", 1);
         }
-        let ncmds = script.len() + 12 + rng.below(20);
+        let ncmds = script.len() + if hostile_only { 3 } else { 12 + rng.below(20) };
         let mut changed_by_union = false;
         let mut all_terms: Vec<X> = vec![];
         for ci in 0..ncmds {
